@@ -1009,6 +1009,16 @@ class World:
             src = it.eval(ynode.value, fr)
             if it.out is None:
                 raise Unsupported('yield outside generator context')
+            if isinstance(src, SVal):
+                # an opaque iterable: a finite uninterpreted sequence
+                from . import models
+                n = models.uf('py.iterlen', S.Val, z3.IntSort())(src.t)
+                it.path.assume(n >= 0)
+                arr = models.uf('py.iteritems', S.Val, z3.ArraySort(
+                    z3.IntSort(), S.Val))(src.t)
+                self.trusted_used.add('yield from an opaque iterable: a '
+                                      'finite uninterpreted sequence')
+                src = SSeq(n, arr, TVal, kind='tuple')
             items = self.iter_spec(src, it)
             if isinstance(items.length, int) or z3.is_int_value(
                     z3.simplify(items.length)):
@@ -1019,7 +1029,22 @@ class World:
                 return
             if isinstance(src, (SSeq, MList)):
                 q = src.seq if isinstance(src, MList) else src
+                n0 = it.out.seq.length
                 it.out.seq = S.seq_concat(it.out.seq, q)
+                # the ghosts that run parallel to `out`: every element of
+                # the block is emitted in the present state
+                consts = {}
+                if 'pulls' in it.ghost_vars and hasattr(
+                        it.ghost_vars.get('SRC'), 'pos'):
+                    consts['pulls'] = it.ghost_vars['SRC'].pos
+                if 'ycalls' in it.ghost_vars:
+                    consts['ycalls'] = z3.IntVal(len(it.calls))
+                for gname, cv in consts.items():
+                    pl = it.ghost_vars[gname]
+                    k = z3.Int(S.fresh_name('k'))
+                    arr = z3.Lambda([k], z3.If(k < n0, pl.seq.at(k), cv))
+                    pl.seq = SSeq(z3.simplify(n0 + q.length), arr, TInt,
+                                  kind='list')
                 return
             if isinstance(src, S.SIter):
                 # delegating to a one-shot iterator: each element is yielded
